@@ -87,7 +87,23 @@ func NewCreateRequest(info *CreateRequestInfo) ([]byte, error) {
 
 func getPatches(opaque string, patches []patch.Patch) ([]patch.Patch, error) {
 	if opaque != "" {
-		return patch.PatchesFromDocument(opaque)
+		fromDoc, err := patch.PatchesFromDocument(opaque)
+		if err != nil {
+			return nil, err
+		}
+
+		if len(fromDoc) == 0 {
+			// a document without content (no members, or nothing but empty key, service and URI lists) gives no patch,
+			// and a delta needs at least one: say it with the patch that stands for an empty document
+			empty, err := patch.NewReplacePatch("{}")
+			if err != nil {
+				return nil, err
+			}
+
+			return []patch.Patch{empty}, nil
+		}
+
+		return fromDoc, nil
 	}
 
 	return patches, nil
